@@ -107,4 +107,10 @@ FINDINGS = [
          witness=dict(kind='roundtrip', spec='M DEFINITIONS EXPLICIT TAGS ::= BEGIN X ::= SEQUENCE { a A } A ::= SET { b [0] CHOICE { v BOOLEAN, f C } } '
                                              'C ::= CHOICE { n [0] IMPLICIT X, m [1] NULL }' + END,
                       codec='ber', type='A', value={'b': T(['f', T(['n', {'a': {'b': T(['v', True])}}])])})),
+    dict(key='der-set-extension-additions-not-in-tag-order', props=['C03'],
+         text='DER SET with extension additions: only the root components are sorted by tag, the additions are appended in declaration order: '
+              'SET { item SET { }, ..., flag INTEGER OPTIONAL } value {item {}, flag 256} gives 31 06 31 00 02 02 01 00, X.690 10.3 requires '
+              '31 06 02 02 01 00 31 00 (ber.py:698-708 encodes root members, then additions)',
+         witness=dict(kind='encode_expect', spec=HDRX + 'A ::= SET { item SET { }, ..., flag INTEGER OPTIONAL }' + END, codec='der', type='A',
+                      value={'item': {}, 'flag': 256}, expected_hex='3106020201003100')),
 ]
